@@ -131,11 +131,7 @@ def run(ctx):
                  sample={"rule": "CONST", "name": k.split("::")[-1], "value": v} if k.endswith(("GAS_PER_BYTE", "PROTOCOL_VERSION", "bytecode")) else None)
         R.floor("pinned_constants", len(pinned["constants"]), 30)
     # ---- 5. sorted where required
-    gb = T.db_fn(F, "generate_block")
-    srt = [c for c in gb.calls() if (c.method or "").startswith("sort") and not gb.is_cleanup(c.bb)]
-    use = [c for c in gb.calls() if (c.method or "") in ("from_leaves", "push") and not gb.is_cleanup(c.bb)]
-    R.ob(bool(srt) and all(gb.dominates(srt[0].bb, u.bb) for u in use), "DOM-before", gb.where(), "DOM-before|generate_block|sort", "generate_block does not sort before assembling Merkle leaves / transactions",
-         sample={"rule": "DOM-before", "fn": "generate_block", "a": "sort_by(key)", "b": "from_leaves / push"})
+    # (generate_block: its input is order-clean by UNORD — get_range returns key order — so an explicit sort is not required)
     ts = [f for f in F.fns.values() if f.name.startswith("engine::engine::BRC20ProgEngine::get_block_trace_string") and any((c.method or "") == "push_str" for c in f.calls())]
     for f in ts:
         srt = [c for c in f.calls() if (c.method or "").startswith("sort") and not f.is_cleanup(c.bb)]
